@@ -6,6 +6,7 @@ import (
 	"time"
 
 	"github.com/miekg/dns"
+	"github.com/semihalev/sdns/middleware"
 )
 
 // Thin accessors injected with `go test -overlay` by /verif for the X04DP tier
@@ -138,4 +139,50 @@ func (s *Store) VerifX04dpEntryEnd(q dns.Question) (stored, ttlEnd, cutUntil tim
 		return time.Time{}, time.Time{}, time.Time{}, false
 	}
 	return e.stored, e.stored.Add(e.ttl), e.cutUntil, true
+}
+
+// ---- the lookup-in-flight dimension of DenialProof.tla (Race = TRUE) ------------------------------------------------
+
+// VerifX04dpSetProofClock replaces the clock of the denial-proof index (the seam denialProofCache.now; lookupWithMeta
+// reads it right after it has captured the zone snapshots and released the read lock, recordWithKind before it
+// extracts).  The harness installs a function that returns time.Now() and can hold a lookup there.  Call it before any
+// traffic.
+func (s *Store) VerifX04dpSetProofClock(now func() time.Time) {
+	if s.denialProofs != nil && now != nil {
+		s.denialProofs.now = now
+	}
+}
+
+// VerifX04dpCryptoLimiter returns the shared DNSSEC crypto gate the cache was wired with, so that the harness can put
+// itself in front of it (Cache.SetDNSSECCryptoLimiter is public) and hold the production BeginNSEC3Hash of an
+// aggressive lookup mid-evaluation.
+func (c *Cache) VerifX04dpCryptoLimiter() middleware.DNSSECCryptoLimiter { return c.dnssecCryptoLimiter }
+
+// VerifX04dpQuarantine reports the NSEC3 conflict tombstones of a signer zone: how many are active at the index clock
+// and the latest instant one of them ends.
+func (s *Store) VerifX04dpQuarantine(zone string) (active int, until time.Time) {
+	c := s.denialProofs
+	if c == nil {
+		return 0, time.Time{}
+	}
+	zone = dns.CanonicalName(zone)
+	c.mu.RLock()
+	defer c.mu.RUnlock()
+	now := c.now()
+	for k, t := range c.nsec3Conflicts {
+		if k.zone.zone != zone || !now.Before(t) {
+			continue
+		}
+		active++
+		if t.After(until) {
+			until = t
+		}
+	}
+	if now.Before(c.nsec3ConflictOverflowUntil) {
+		active++
+		if c.nsec3ConflictOverflowUntil.After(until) {
+			until = c.nsec3ConflictOverflowUntil
+		}
+	}
+	return active, until
 }
